@@ -27,6 +27,11 @@ TCall == /\ Consume("call")
          /\ Call(Ev.t, Ev.op, Ev.a, Ev.x, Ev.timed)
 TRet  == /\ Consume("ret")
          /\ Ret(Ev.t, Ev.res)
+\* the implementation's thread has gone to sleep inside its wait call ("has started blocking"): from here on it is a waiter
+\* of its address in the specification too - a notify on that address that begins later finds it
+TBlocked == /\ Consume("blocked")
+            /\ ts[Ev.t].st = "blocked"
+            /\ UNCHANGED <<cell, waiting, ts>>
 \* end of one execution: everything returned, start afresh
 TReset == /\ Consume("reset")
           /\ \A t \in Threads : ts[t].st = "idle"
@@ -37,7 +42,7 @@ TStuck == /\ Consume("stuck")
           /\ cell' = <<>> /\ waiting' = <<>> /\ ts' = [t \in Threads |-> Idle]
 TInternal == Internal /\ l <= Len(History) /\ UNCHANGED l
 
-TNext == TCall \/ TRet \/ TReset \/ TStuck \/ TInternal
+TNext == TCall \/ TRet \/ TBlocked \/ TReset \/ TStuck \/ TInternal
 TraceSpec == TInit /\ [][TNext]_tvars
 
 Progress == TLCSet(2, IF l > TLCGet(2) THEN l ELSE TLCGet(2))
